@@ -49,7 +49,7 @@ def gen_case(rng, tier):
         keycols.append(col)
     kinds, conts = [], []
     for col in keycols:
-        kind = rng.choice([k for k in ["int", "float", "str", "cat", "dt", "dttz", "bool", "range"] if api.kind_ok(col, k) or k == "range"])
+        kind = rng.choice([k for k in ["int", "float", "str", "cat", "dt", "dttz", "date", "bool", "range"] if api.kind_ok(col, k) or k == "range"])
         if kind == "range":
             if nkeys == 1 and None not in col:
                 col[:] = list(range(n))     # RangeIndex key: every row its own group
@@ -61,7 +61,7 @@ def gen_case(rng, tier):
         elif kind == "bool":
             conts.append(rng.choice(["numpy", "pandas"]))
         else:
-            conts.append(rng.choice(CONTAINERS if kind in ("float", "str", "int", "dt", "dttz") else ["numpy", "pandas"]))
+            conts.append(rng.choice(CONTAINERS if kind in ("float", "str", "int", "dt", "dttz", "date") else ["numpy", "pandas"]))
     route = rng.choice(["plain", "plain", "chunked"]) if nkeys == 1 and n >= 4 and kinds[0] not in ("cat", "range", "bool") else "plain"
     cuts = sorted(rng.sample(range(0, n + 1), rng.randint(0, min(3, n))))
     b = [0, *cuts, n]
